@@ -292,3 +292,103 @@ def run_time_parallel(R, P, rule, every=False, jobs=12):
             R.ob(rule, "%s rounding of times: the nearest time on the requested side for every sampled time of day, every target, both "
                  "directions, with and without --next, with the right day carry" % kind, True)
     return n
+
+
+# ------------------------------------------------------------------ dt_round: co-class date rounding of date-times, and the carry
+def _dtworker(ys):
+    tu, res, E = _G["tu"], _G["resolve"], _G["ED"]
+    fold.RESOLVE["fn"] = res
+    fn = tu.func("dt_round")
+    bad = {}
+    n = 0
+
+    def run(dt, dur, nxt):
+        r = fold.Folder(fn, calls={"error": lambda *a: 0, "serror": lambda *a: 0}, inline=True, max_steps=1500000).run([dt, dur, nxt])
+        hu = r.get("t.hms.u")
+        h, m, s = (0, 0, 0) if hu == 0 and "t.hms.h" not in r else (r.get("t.hms.h"), r.get("t.hms.m"), r.get("t.hms.s"))
+        return (r.get("d.ymd.y"), r.get("d.ymd.m"), r.get("d.ymd.d"), h, m, s)
+    for y in ys:
+        for (mo, dy) in ((1, 1), (1, 31), (2, 28), (3, 1), (6, 30), (12, 1), (12, 31)):
+            for (h, m, s) in ((0, 0, 0), (0, 0, 1), (12, 0, 0), (23, 59, 59)):
+                d = datetime.datetime(y, mo, dy, h, m, s)
+                dt = {"typ": E["DT_YMD"], "sandwich": 1, "d.typ": E["DT_YMD"], "d.ymd.y": y, "d.ymd.m": mo, "d.ymd.d": dy,
+                      "t.typ": E["DT_HMS"], "t.hms.h": h, "t.hms.m": m, "t.hms.s": s, "t.hms.ns": 0}
+                for nxt in (0, 1):
+                    for forw in (True, False):
+                        # whole days
+                        c = datetime.datetime(y, mo, dy)
+                        if forw:
+                            if c < d or nxt:
+                                c += datetime.timedelta(days=1)
+                        else:
+                            if c == d and nxt:
+                                c -= datetime.timedelta(days=1)
+                        n += 1
+                        dur = {"durtyp": E["DT_DURD"], "d.durtyp": E["DT_DURD"], "d.dv": 1 if forw else -1, "cocl": 1, "d.cocl": 1, "neg": 0, "d.neg": 0}
+                        got = run(dt, dur, nxt)
+                        if got != (c.year, c.month, c.day, 0, 0, 0):
+                            bad.setdefault("/1d", []).append((d.isoformat(), "/%s1d%s" % ("" if forw else "-", " --next" if nxt else ""), str(got), c.isoformat()))
+                        # months, quarters, years
+                        for unit, per, Ns in (("DT_DURMO", 1, (1, 2, 3, 4, 6, 12)), ("DT_DURQU", 3, (1, 2, 4)), ("DT_DURYR", 12, (1,))):
+                            for N in Ns:
+                                step = N * per
+                                ym = y * 12 + mo - 1
+                                lo = ym // step * step
+                                start = datetime.datetime(lo // 12, lo % 12 + 1, 1)
+                                if forw:
+                                    if start < d or nxt:
+                                        lo += step
+                                else:
+                                    if start == d and nxt:
+                                        lo -= step
+                                c = datetime.datetime(lo // 12, lo % 12 + 1, 1)
+                                n += 1
+                                dur = {"durtyp": E[unit], "d.durtyp": E[unit], "d.dv": N if forw else -N, "cocl": 1, "d.cocl": 1, "neg": 0, "d.neg": 0}
+                                got = run(dt, dur, nxt)
+                                if got != (c.year, c.month, c.day, 0, 0, 0):
+                                    bad.setdefault("/N months", []).append((d.isoformat(), "/%s%d%s%s" % ("" if forw else "-", N, {"DT_DURMO": "mo", "DT_DURQU": "q", "DT_DURYR": "y"}[unit], " --next" if nxt else ""), str(got), c.isoformat()))
+    return n, bad
+
+
+def run_dt_parallel(R, P, rule, jobs=12):
+    import multiprocessing as mp
+    tu = P.tu("dround-dround.o")
+    libs = [P.tu("libdut_a-dt-core.o"), P.tu("libdut_a-date-core.o"), P.tu("libdut_a-time-core.o")]
+    if tu.func("dt_round") is None:
+        raise AnalysisBroken("dt_round vanished")
+    R.saw(tu.func("dt_round"))
+
+    def resolve(name):
+        for l in libs:
+            f = l.func(name)
+            if f is not None and getattr(f, "body", None) is not None:
+                return f
+        return None
+    ED = {k: tu.enum_value(k) for k in ("DT_YMD", "DT_HMS", "DT_DURD", "DT_DURMO", "DT_DURQU", "DT_DURYR")}
+    if None in ED.values():
+        raise AnalysisBroken("%s: tags not found (%s)" % (rule, ED))
+    _G.update(tu=tu, resolve=resolve, ED=ED)
+    years = convdecode.class_years()
+    chunks = [c for c in (years[i::jobs] for i in range(jobs)) if c]
+    try:
+        ctx = mp.get_context("fork")
+        with ctx.Pool(len(chunks)) as pool:
+            parts = pool.map(_dtworker, chunks)
+    except NotConst as e:
+        raise AnalysisBroken("%s: dt_round left the foldable fragment (%s)" % (rule, e))
+    n = 0
+    bad = {}
+    for k, b in parts:
+        n += k
+        for key, lst in b.items():
+            bad.setdefault(key, []).extend(lst)
+    for kind in ("/1d", "/N months"):
+        if kind in bad:
+            lst = sorted(bad[kind])
+            day, what, got, exp = lst[0]
+            R.finding(rule, tu.func("dt_round"), "co-class rounding %s of date-times, decoded" % kind, "%d points differ from the definition; first: "
+                      "dround %s %s gives %s, the nearest multiple on the requested side is %s" % (len(lst), day, what, got, exp))
+        else:
+            R.ob(rule, "co-class rounding %s of date-times (dt_round, with the day carry): the nearest multiple on the requested side with all "
+                 "finer fields zero" % kind, True)
+    return n
